@@ -1,7 +1,7 @@
 import VaxisModel.Model.GoSyn
 
 /-! The statement skeletons of vxfw/list/list.go `Dynamic`'s methods that `Model/DynList.lean` transcribes
-    (a copy of `Gen/DynSkel.lean` as of /repo ee95cee, taken when the model was written).  `Props/C19Tie.lean`
+    (a copy of `Gen/DynSkel.lean` as of /repo 81f1850, taken when the model was written).  `Props/C19Tie.lean`
     proves the regenerated skeletons equal to these, statement by statement: a change of the source
     shows up as a failing `skeleton_*` theorem naming the method. -/
 namespace VaxisModel.Lemmas.DynSkelExpected
@@ -58,7 +58,7 @@ def draw : List Line := [
   ⟨2, .forPost, .none, .none⟩,
   ⟨3, .addAssign, (.var "v13"), (.int 1)⟩,
   ⟨1, .define, (.var "v14"), (.bin "-" (.var "d.cursor") (.var "d.scroll.top"))⟩,
-  ⟨1, .ifS, (.bin "&&" (.bin ">=" (.var "d.cursor") (.var "d.scroll.top")) (.bin "<" (.arg (.call (.var "int")) (.var "v14")) (.arg (.call (.var "len")) (.var "v1.Children")))), .none⟩,
+  ⟨1, .ifS, (.bin "&&" (.bin ">=" (.var "d.cursor") (.var "d.scroll.top")) (.bin "<" (.var "v14") (.arg (.call (.var "uint")) (.arg (.call (.var "len")) (.var "v1.Children"))))), .none⟩,
   ⟨2, .define, (.var "v15"), (.index (.var "v1.Children") (.var "v14"))⟩,
   ⟨2, .define, (.var "v16"), (.arg (.arg (.arg (.call (.var "vxfw.NewSurface")) (.var "v0.Max.Width")) (.var "v15.Surface.Size.Height")) (.var "v15.Surface.Widget"))⟩,
   ⟨2, .varS, (.var "v17"), (.lit "uint16")⟩,
@@ -71,7 +71,7 @@ def draw : List Line := [
   ⟨2, .assign, (.index (.var "v1.Children") (.var "v14")), (.var "v18")⟩,
   ⟨0, .ifS, (.var "d.scroll.wantsCursor"), .none⟩,
   ⟨1, .define, (.var "v19"), (.bin "-" (.var "d.cursor") (.var "d.scroll.top"))⟩,
-  ⟨1, .ifS, (.bin "<" (.arg (.call (.var "int")) (.var "v19")) (.arg (.call (.var "len")) (.var "v1.Children"))), .none⟩,
+  ⟨1, .ifS, (.bin "<" (.var "v19") (.arg (.call (.var "uint")) (.arg (.call (.var "len")) (.var "v1.Children")))), .none⟩,
   ⟨2, .define, (.var "v20"), (.index (.var "v1.Children") (.var "v19"))⟩,
   ⟨2, .define, (.var "v21"), (.bin "+" (.var "v20.Origin.Row") (.arg (.call (.var "int")) (.var "v20.Surface.Size.Height")))⟩,
   ⟨2, .ifS, (.bin ">" (.var "v21") (.arg (.call (.var "int")) (.var "v0.Max.Height"))), .none⟩,
